@@ -190,7 +190,7 @@ def execute(case: dict) -> dict:
                 bad.append(f'raised[{tag}]:{type(exc).__name__}')
                 o.setdefault('exc', str(exc)[:300])
     # the pack operator behaves as indexing every leaf by its mask
-    if len(case['items']) == 1 and case['items'][0]['t'] == 'mask' and len(case['items'][0]['sh']) == len(shape):
+    if len(case['items']) == 1 and case['items'][0]['t'] == 'mask' and len(case['items'][0]['sh']) <= len(shape):
         mask = _indices(case['items'])[0]
         for tname in ('leaf', 'stokes'):
             ins, outs = trees[tname]
